@@ -5,7 +5,11 @@ import "oxverif/harness/core"
 // Targets maps property ids to their correspondence targets.
 var Targets = map[string]core.Target{
 	"C11": C11{},
+	"C01": C01{},
+	"C02": C02{},
 	"C03": C03{},
+	"C04": C04{},
+	"C05": C05{},
 	"C06": C06{},
 	"C07": C07{},
 	"C08": C08{},
